@@ -2,6 +2,7 @@ package rules
 
 import (
 	"fmt"
+	"go/constant"
 	"go/token"
 	"go/types"
 	"sort"
@@ -18,9 +19,9 @@ func init() {
 		ID: "C08", Section: "3 C08",
 		Technique: "value-flow of the retry flag through phis with type-switch arm resolution, guard census on checkAllowRetry/checkRequestWithoutBody, who-may-write census of Request.RetryTime, dominance of the retry bound in BalanceGslb.Balance",
 		Meta: core.Meta{
-			Level: "other",
-			Explanation: "Decides: (a) in ReverseProxy.clusterInvoke the flag tested by `if !allowRetry` is, on every incoming path, false, the result of checkAllowRetry(cluster.RetryLevel(), outreq), or the constant true only inside the type-switch arm for {bfe_http.ConnectError, bfe_fcgi.ConnectError}; (b) checkAllowRetry returns true only under retryLevel == RetryGet && Method == \"GET\" && checkRequestWithoutBody, and checkRequestWithoutBody returns true only for Body == nil, Body == EofReader, or an SPDY body's Eof(); (c) every path from one bal.Balance call back to it passes an increment of request.RetryTime, the only other writer of RetryTime is BalanceGslb.Balance raising it to retryMax under RetryTime <= retryMax, and Balance returns ErrBkRetryTooMany before any selection when RetryTime > retryMax+crossRetry; (d) in-cluster selection happens only under RetryTime <= retryMax, the cross-retry target is randomSelectExclude(first-choice sub-cluster) and is reached only when crossRetry > 0; (e) no unchecked type assertion inside a type-switch arm asserts a type the arm does not imply. Not covered: the transport's classification of failures into those error types; whether a write error happened before or after bytes reached the backend.",
-			RuleText:    "obligations = each phi edge of the retry flag, each `return true` of the two predicates, each writer of Request.RetryTime, the loop back path, the gates in BalanceGslb.Balance, each unchecked type assertion in clusterInvoke",
+			Level:       "other",
+			Explanation: "Decides: (a) in ReverseProxy.clusterInvoke (with its private helpers) every branch whose condition is computed from checkAllowRetry and that chooses between another RoundTrip and leaving the loop has, on every incoming value path (through phis, negations, results and parameters of private helpers), the value false, the result of checkAllowRetry(cluster.RetryLevel(), request.OutRequest) of the cluster and request being invoked, or the constant true only inside the type-switch arm for {bfe_http.ConnectError, bfe_fcgi.ConnectError}; the no-retry edge cannot reach RoundTrip again; (b) checkAllowRetry can return true only under retryLevel == RetryGet && Method == \"GET\" && checkRequestWithoutBody (any spelling: nested ifs, early returns, named booleans, returning the last conjunct), and checkRequestWithoutBody only for Body == nil, Body == EofReader, or an SPDY body's Eof(); (c) every path from one bal.Balance call back to it passes an increment of the invoked request's RetryTime (directly or in a helper that always increments), the only other writer of RetryTime is BalanceGslb.Balance raising it to retryMax under RetryTime <= retryMax, and Balance returns ErrBkRetryTooMany before any selection when RetryTime > retryMax+crossRetry; (d) in-cluster selection (SubCluster.balance on the result of subClusterBalance) happens only under RetryTime <= retryMax, the cross-retry target is the result of randomSelectExclude(first-choice sub-cluster) and is reached only when crossRetry > 0; (e) no unchecked type assertion inside a type-switch arm asserts a type the arm does not imply. Operands are identified by field object, parameter and constant, not by local names. Not covered: the transport's classification of failures into those error types; whether a write error happened before or after bytes reached the backend; a retry decision that is not computed from checkAllowRetry at all (e.g. a second, independent `continue` path around the flag test) is only caught through the RetryTime budget rules; a retry flag returned by a helper through control flow only (`if !flag { return true }`) is reported as unresolved.",
+			RuleText:    "obligations = each value source of each retry decision, each `return true` of the two predicates, each writer of Request.RetryTime, the loop back path, the gates in BalanceGslb.Balance, each unchecked type assertion in clusterInvoke",
 		},
 		Run: runC08,
 		Mutants: []Mutant{
@@ -33,6 +34,22 @@ func init() {
 			{Name: "cross-exclude-wrong-target", File: "bfe_balance/bal_gslb/bal_gslb.go", Old: "	current, err = bal.randomSelectExclude(current)", New: "	current, err = bal.randomSelectExclude(nil)", Expect: "cross-exclude"},
 			{Name: "stale-conn-as-connect-error", File: "bfe_http/transport.go", Old: "	resp, err = pconn.roundTrip(treq)\n	if err == nil {\n		state.HttpBackendReqSucc.Inc(1)\n	}", New: "	resp, err = pconn.roundTrip(treq)\n	if err == nil {\n		state.HttpBackendReqSucc.Inc(1)\n	} else if _, ok := err.(ReadRespHeaderError); ok {\n		err = ConnectError{Err: err, Addr: cm.addr()}\n	}", Expect: "connect-error-origin"},
 			{Name: "retrytime-reset", File: "bfe_balance/bal_gslb/bal_gslb.go", Old: "			req.RetryTime = bal.retryMax\n", New: "			req.RetryTime = 0\n", Expect: "retrytime-writers"},
+			// behaviour-preserving edits: the verdict must not change
+			{Name: "silent-extract-retry-bookkeeping", Silent: true, File: "bfe_server/reverseproxy.go",
+				Old: "		request.RetryTime += 1\n	}\n\n	// have retry?\n	if request.RetryTime > 0 {\n		p.proxyState.ClientReqWithRetry.Inc(1)\n	}\n	// have cross-cluster retry?\n	if request.Stat.IsCrossCluster {\n		p.proxyState.ClientReqWithCrossRetry.Inc(1)\n	}\n\n	log.Logger.Debug(\"clusterInvoke %v %v\", res, err)\n	return\n}\n",
+				New: "		consumeRetry(request)\n	}\n\n	// have retry?\n	if request.RetryTime > 0 {\n		p.proxyState.ClientReqWithRetry.Inc(1)\n	}\n	// have cross-cluster retry?\n	if request.Stat.IsCrossCluster {\n		p.proxyState.ClientReqWithCrossRetry.Inc(1)\n	}\n\n	log.Logger.Debug(\"clusterInvoke %v %v\", res, err)\n	return\n}\n\n// consumeRetry accounts one more try of the request.\nfunc consumeRetry(request *bfe_basic.Request) {\n	request.RetryTime += 1\n}\n"},
+			{Name: "silent-body-check-early-return", Silent: true, File: "bfe_server/reverseproxy.go",
+				Old: "	if body, ok := req.Body.(*bfe_spdy.RequestBody); ok {\n		return body.Eof()\n	}\n	return false",
+				New: "	body, ok := req.Body.(*bfe_spdy.RequestBody)\n	if !ok {\n		return false\n	}\n	return body.Eof()"},
+			{Name: "silent-allow-retry-renamed-flat", Silent: true, File: "bfe_server/reverseproxy.go",
+				Old: "func checkAllowRetry(retryLevel int, outreq *bfe_http.Request) bool {\n	if retryLevel == cluster_conf.RetryGet {\n		// if forward GET request error (eg. backend restart)\n		if outreq.Method == \"GET\" && checkRequestWithoutBody(outreq) {\n			return true\n		}\n	}\n	return false\n}",
+				New: "func checkAllowRetry(level int, r *bfe_http.Request) bool {\n	getOnly := cluster_conf.RetryGet == level\n	isGet := \"GET\" == r.Method\n	allowed := getOnly && isGet && checkRequestWithoutBody(r)\n	return allowed\n}"},
+			{Name: "silent-bound-mirrored", Silent: true, File: "bfe_balance/bal_gslb/bal_gslb.go",
+				Old: "	if req.RetryTime > (bal.retryMax + bal.crossRetry) {",
+				New: "	budget := bal.crossRetry + bal.retryMax\n	if !(budget >= req.RetryTime) {"},
+			{Name: "silent-retry-debug-log", Silent: true, File: "bfe_server/reverseproxy.go",
+				Old: "		if err == bfe_basic.ErrBkCrossRetryBalance {\n			request.RetryTime += 1\n			continue",
+				New: "		if err == bfe_basic.ErrBkCrossRetryBalance {\n			log.Logger.Debug(\"cross retry: no backend in sub cluster, retry=%d\", request.RetryTime)\n			if request.RetryTime < 0 {\n				// never here\n				break\n			}\n			request.RetryTime++\n			continue"},
 		},
 	})
 }
@@ -81,6 +98,48 @@ func typeNames(ts []types.Type) []string {
 	return s
 }
 
+// armCtx: the type-switch arm (or comma-ok assertion branch) that encloses b;
+// inside a private helper of the region without an arm of its own, the arms
+// enclosing all of its call sites.
+func armCtx(rg *rRegion, b *ssa.BasicBlock, depth int) []types.Type {
+	if b == nil {
+		return nil
+	}
+	if _, ts := enclosingArm(b); ts != nil {
+		return ts
+	}
+	f := b.Parent()
+	if depth <= 0 || f == rg.root || !rg.in[f] || len(rg.sites[f]) == 0 {
+		return nil
+	}
+	var out []types.Type
+	for _, s := range rg.sites[f] {
+		ts := armCtx(rg, s.Block(), depth-1)
+		if ts == nil {
+			return nil
+		}
+		out = append(out, ts...)
+	}
+	return out
+}
+
+// reachBlocks: blocks reachable from the start of b (b included).
+func reachBlocks(b *ssa.BasicBlock) map[*ssa.BasicBlock]bool {
+	seen := map[*ssa.BasicBlock]bool{b: true}
+	work := []*ssa.BasicBlock{b}
+	for len(work) > 0 {
+		x := work[len(work)-1]
+		work = work[:len(work)-1]
+		for _, s := range x.Succs {
+			if !seen[s] {
+				seen[s] = true
+				work = append(work, s)
+			}
+		}
+	}
+	return seen
+}
+
 func runC08(c *core.Ctx) {
 	const srv = "bfe_server"
 	const gslb = "bfe_balance/bal_gslb"
@@ -90,76 +149,311 @@ func runC08(c *core.Ctx) {
 		return
 	}
 	c.Analysed(core.FuncKey(ci))
-	// (a) the retry flag
-	var flag ssa.Value
-	for _, in := range allInstrs(ci) {
-		ifi, ok := in.(*ssa.If)
-		if !ok {
-			continue
-		}
-		if phi, ok := ifi.Cond.(*ssa.Phi); ok && phi.Comment == "allowRetry" {
-			flag = phi
+	rg := rNewRegion(c.P, ci)
+	reqPar := rg.rootParam("*bfe_basic.Request")
+	var cluPar *ssa.Parameter
+	for _, q := range ci.Params {
+		if strings.HasSuffix(core.TypeStr(q.Type()), ".BfeCluster") {
+			cluPar = q
 		}
 	}
-	if flag == nil {
-		c.Missing("clusterInvoke: the branch on the retry flag (allowRetry)")
-	} else {
-		// the false edge of the flag test must leave the loop (reach return without another RoundTrip)
-		n := 0
-		var visit func(v ssa.Value, from *ssa.BasicBlock, seen map[ssa.Value]bool)
-		visit = func(v ssa.Value, from *ssa.BasicBlock, seen map[ssa.Value]bool) {
-			if seen[v] {
-				return
+	if reqPar == nil || cluPar == nil {
+		c.Missing("clusterInvoke: parameters of type *bfe_basic.Request and *BfeCluster")
+		return
+	}
+	retryTime, _ := c.P.Obj("bfe_basic", "Request.RetryTime").(*types.Var)
+	outReq, _ := c.P.Obj("bfe_basic", "Request.OutRequest").(*types.Var)
+	if retryTime == nil || outReq == nil {
+		c.Missing("bfe_basic.Request.RetryTime / OutRequest")
+		return
+	}
+	// attempt sites: a RoundTrip (resp. Balance) call, or a call of a region helper that contains one
+	lift := func(names ...string) func(ssa.Instruction) bool {
+		has := map[*ssa.Function]bool{}
+		direct := func(in ssa.Instruction) bool {
+			cc, ok := in.(ssa.CallInstruction)
+			return ok && core.CallIs(cc.Common(), names...)
+		}
+		for changed := true; changed; {
+			changed = false
+			for _, f := range rg.fns {
+				if has[f] {
+					continue
+				}
+				core.Instrs(f, func(in ssa.Instruction) {
+					if has[f] {
+						return
+					}
+					if direct(in) {
+						has[f] = true
+					} else if cc, ok := in.(ssa.CallInstruction); ok {
+						if h := cc.Common().StaticCallee(); h != nil && rg.in[h] && has[h] {
+							has[f] = true
+						}
+					}
+				})
+				if has[f] {
+					changed = true
+				}
 			}
-			seen[v] = true
+		}
+		return func(in ssa.Instruction) bool {
+			if direct(in) {
+				return true
+			}
+			if _, isGo := in.(*ssa.Go); isGo {
+				return false
+			}
+			cc, ok := in.(ssa.CallInstruction)
+			if !ok {
+				return false
+			}
+			h := cc.Common().StaticCallee()
+			return h != nil && rg.in[h] && has[h]
+		}
+	}
+	isAttempt := lift("invoke:bfe_http.RoundTripper.RoundTrip")
+	isSelect := lift(gslb + ".BalanceGslb.Balance")
+	// (a) the retry decision: every branch of the region whose condition is computed from
+	// checkAllowRetry and that decides between another attempt and leaving the loop
+	allowCalls := rg.calls(srv + ".checkAllowRetry")
+	if len(allowCalls) == 0 {
+		c.Missing("clusterInvoke: no call of checkAllowRetry in clusterInvoke or its private helpers (the retry decision)")
+	}
+	dep := map[ssa.Value]bool{}
+	{
+		var work []ssa.Value
+		add := func(v ssa.Value) {
+			if v != nil && !dep[v] {
+				dep[v] = true
+				work = append(work, v)
+			}
+		}
+		for _, ac := range allowCalls {
+			if v, ok := ac.(*ssa.Call); ok {
+				add(v)
+			}
+		}
+		for len(work) > 0 {
+			v := work[len(work)-1]
+			work = work[:len(work)-1]
+			if v.Referrers() == nil {
+				continue
+			}
+			for _, u := range *v.Referrers() {
+				switch x := u.(type) {
+				case *ssa.Phi:
+					add(x)
+				case *ssa.UnOp:
+					if x.Op == token.NOT {
+						add(x)
+					}
+				case *ssa.BinOp:
+					add(x)
+				case *ssa.Store:
+					// result slot of a function with defer: the reload before return carries the value
+					if a, ok := x.Addr.(*ssa.Alloc); ok && x.Val == v && a.Referrers() != nil {
+						for _, ld := range *a.Referrers() {
+							if l, ok := ld.(*ssa.UnOp); ok && l.Op == token.MUL {
+								add(l)
+							}
+						}
+					}
+				case *ssa.Return:
+					f := x.Parent()
+					for ri, res := range x.Results {
+						if res != v {
+							continue
+						}
+						for _, s := range rg.sites[f] {
+							call, ok := s.(*ssa.Call)
+							if !ok {
+								continue
+							}
+							if len(x.Results) == 1 {
+								add(call)
+							} else if call.Referrers() != nil {
+								for _, e := range *call.Referrers() {
+									if ex, ok := e.(*ssa.Extract); ok && ex.Index == ri {
+										add(ex)
+									}
+								}
+							}
+						}
+					}
+				case ssa.CallInstruction:
+					if h := x.Common().StaticCallee(); h != nil && h != ci && rg.in[h] && h.Parent() == nil {
+						for ai, a := range x.Common().Args {
+							if a == v && ai < len(h.Params) {
+								add(h.Params[ai])
+							}
+						}
+					}
+				}
+			}
+		}
+	}
+	nDecisions := 0
+	rg.instrs(func(in ssa.Instruction) {
+		ifi, ok := in.(*ssa.If)
+		if !ok || !dep[ifi.Cond] {
+			return
+		}
+		blk := ifi.Block()
+		if blk.Succs[0] == blk.Succs[1] {
+			return
+		}
+		// which edge leads to another attempt?
+		again := [2]bool{}
+		for e := 0; e < 2; e++ {
+			for b := range reachBlocks(blk.Succs[e]) {
+				for _, x := range b.Instrs {
+					if isAttempt(x) {
+						again[e] = true
+					}
+				}
+			}
+		}
+		if !again[0] && !again[1] {
+			return // not a loop decision in this function (e.g. inside a helper computing the flag)
+		}
+		nDecisions++
+		ifPos := ifi.Cond.Pos()
+		if !ifPos.IsValid() && len(blk.Instrs) > 0 {
+			ifPos = blk.Instrs[0].Pos()
+		}
+		c.Check("retry-flag", "clusterInvoke:false-leaves-loop", ifPos, again[0] != again[1], "when retry is not allowed the loop is not left: RoundTrip is reachable again on both edges of the retry decision")
+		if again[0] == again[1] {
+			return
+		}
+		// value flow of the decision; neg: the condition being true means "do not retry"
+		seen := map[ssa.Value]bool{}
+		var visit func(v ssa.Value, from *ssa.BasicBlock, neg bool, pos token.Pos)
+		visit = func(v ssa.Value, from *ssa.BasicBlock, neg bool, pos token.Pos) {
+			if _, isConst := v.(*ssa.Const); !isConst {
+				if seen[v] {
+					return
+				}
+				seen[v] = true
+			}
+			names := typeNames(armCtx(rg, from, 3))
+			at := strings.Join(names, ",")
+			if v.Pos().IsValid() {
+				pos = v.Pos()
+			}
 			switch x := v.(type) {
 			case *ssa.Phi:
 				for i, e := range x.Edges {
-					visit(e, x.Block().Preds[i], seen)
+					p := x.Block().Preds[i]
+					epos := pos
+					if len(p.Instrs) > 0 && p.Instrs[0].Pos().IsValid() {
+						epos = p.Instrs[0].Pos()
+					}
+					visit(e, p, neg, epos)
 				}
 				return
+			case *ssa.UnOp:
+				if x.Op == token.NOT {
+					visit(x.X, from, !neg, pos)
+					return
+				}
+				if x.Op == token.MUL {
+					// result slot reloaded after rundefers
+					if a, ok := x.X.(*ssa.Alloc); ok && a.Referrers() != nil {
+						n := 0
+						for _, r := range *a.Referrers() {
+							if st, ok := r.(*ssa.Store); ok && st.Addr == a {
+								n++
+								visit(st.Val, st.Block(), neg, pos)
+							}
+						}
+						if n > 0 {
+							return
+						}
+					}
+				}
+			case *ssa.Parameter:
+				h := x.Parent()
+				if h != ci && rg.in[h] && len(rg.sites[h]) > 0 {
+					i := paramIndex(x)
+					for _, s := range rg.sites[h] {
+						visit(s.Common().Args[i], s.Block(), neg, s.Pos())
+					}
+					return
+				}
+			case *ssa.Extract:
+				if call, ok := x.Tuple.(*ssa.Call); ok {
+					if h := call.Call.StaticCallee(); h != nil && h != ci && rg.in[h] && h.Blocks != nil {
+						for _, r := range core.Returns(h) {
+							visit(core.RetVals(r)[x.Index], r.Block(), neg, r.Pos())
+						}
+						return
+					}
+				}
 			case *ssa.Const:
-				n++
-				_, ts := enclosingArm(from)
-				names := typeNames(ts)
-				if x.Value != nil && x.Value.ExactString() == "true" {
+				val, isBool := rBoolConst(x)
+				allow := isBool && (val != neg)
+				if allow {
 					ok := len(names) > 0
 					for _, t := range names {
 						if t != "bfe_http.ConnectError" && t != "bfe_fcgi.ConnectError" {
 							ok = false
 						}
 					}
-					c.Check("retry-flag", "clusterInvoke:true@"+strings.Join(names, ","), x.Pos(), ok,
-						"retry is unconditionally allowed outside the connect-error arm (arm types: "+strings.Join(names, ",")+"); a request that may already have reached a backend would be replayed")
+					c.Check("retry-flag", "clusterInvoke:true@"+at, pos, ok,
+						"retry is unconditionally allowed outside the connect-error arm (arm types: "+at+"); a request that may already have reached a backend would be replayed")
 				} else {
-					c.Check("retry-flag", "clusterInvoke:false@"+strings.Join(names, ","), from.Instrs[0].Pos(), true, "")
+					c.Check("retry-flag", "clusterInvoke:false@"+at, pos, isBool, "the retry decision is a non-boolean constant")
 				}
 				return
 			case *ssa.Call:
-				n++
-				_, ts := enclosingArm(from)
-				names := typeNames(ts)
-				ok := core.CallIs(&x.Call, srv+".checkAllowRetry") && len(x.Call.Args) == 2 &&
-					strings.HasSuffix(core.Render(x.Call.Args[0]), "BfeCluster.RetryLevel(cluster)") && core.Render(x.Call.Args[1]) == "request.OutRequest"
-				c.Check("retry-flag", "clusterInvoke:call@"+strings.Join(names, ","), x.Pos(), ok,
-					"retry flag is computed by "+core.Render(x)+", expected checkAllowRetry(cluster.RetryLevel(), outreq)")
+				if h := x.Call.StaticCallee(); h != nil && h != ci && rg.in[h] && h.Blocks != nil && !core.CallIs(&x.Call, srv+".checkAllowRetry") {
+					for _, r := range core.Returns(h) {
+						visit(core.RetVals(r)[0], r.Block(), neg, r.Pos())
+					}
+					return
+				}
+				ok := !neg && core.CallIs(&x.Call, srv+".checkAllowRetry") && len(x.Call.Args) == 2
+				if ok {
+					// first argument: RetryLevel() of the cluster being invoked
+					ok = false
+					if lv, isCall := core.StripConv(x.Call.Args[0]).(*ssa.Call); isCall && strings.HasSuffix(core.CalleeKey(&lv.Call), ".BfeCluster.RetryLevel") && len(lv.Call.Args) == 1 {
+						ok = rg.isRootParam(lv.Call.Args[0], cluPar)
+					}
+					// second argument: the request's OutRequest
+					okReq := true
+					for _, o := range rg.origins(x.Call.Args[1]) {
+						base := rFieldLoad(o, outReq)
+						if base == nil || !rg.isRootParam(base, reqPar) {
+							okReq = false
+						}
+					}
+					ok = ok && okReq
+				}
+				c.Check("retry-flag", "clusterInvoke:call@"+at, x.Pos(), ok,
+					"retry flag is computed by "+core.Render(x)+", expected checkAllowRetry(cluster.RetryLevel(), outreq) of the cluster and request being invoked")
 				return
 			}
-			n++
-			_, ts := enclosingArm(from)
-			c.Check("retry-flag", "clusterInvoke:other@"+strings.Join(typeNames(ts), ","), v.Pos(), false,
+			c.Check("retry-flag", "clusterInvoke:other@"+at, pos, false,
 				"retry flag is "+core.Render(v)+": neither false, the connect-error constant true, nor checkAllowRetry(...)")
 		}
-		visit(flag, nil, map[ssa.Value]bool{})
+		visit(ifi.Cond, blk, again[1], ifPos)
+	})
+	if len(allowCalls) > 0 && nDecisions == 0 {
+		c.Missing("clusterInvoke: the branch on the retry flag (no branch computed from checkAllowRetry decides between another RoundTrip and leaving the loop)")
+	}
+	if nDecisions > 0 {
 		c.Min("retry-flag", 6)
 	}
+	// every way from one attempt to the next passes a retry decision on its retry edge: covered by
+	// (c) for the budget; here: a RoundTrip can only be repeated through one of the decisions above
 	// (e) unchecked type assertions inside arms
-	for _, in := range allInstrs(ci) {
+	rg.instrs(func(in ssa.Instruction) {
 		ta, ok := in.(*ssa.TypeAssert)
 		if !ok || ta.CommaOk {
-			continue
+			return
 		}
-		_, ts := enclosingArm(ta.Block())
+		ts := armCtx(rg, ta.Block(), 3)
 		ok2 := len(ts) > 0
 		for _, t := range ts {
 			if types.IsInterface(ta.AssertedType) {
@@ -172,120 +466,216 @@ func runC08(c *core.Ctx) {
 		}
 		c.Check("assert-in-arm", "clusterInvoke:"+core.TypeStr(ta.AssertedType), ta.Pos(), ok2,
 			"unchecked type assertion to "+core.TypeStr(ta.AssertedType)+" inside a type-switch arm for {"+strings.Join(typeNames(ts), ", ")+"}: panics for the other member(s) of the arm")
-	}
+	})
 	// (c) loop: Balance -> ... -> Balance passes an increment of RetryTime
-	balCalls := core.Calls(ci, gslb+".BalanceGslb.Balance")
-	if len(balCalls) != 1 {
-		c.Check("retry-increment", "clusterInvoke:balance-call", ci.Pos(), false, fmt.Sprintf("expected exactly one bal.Balance call in the retry loop, found %d", len(balCalls)))
-	} else {
-		bc := balCalls[0].(ssa.Instruction)
-		isInc := func(x ssa.Instruction) bool {
-			st, ok := x.(*ssa.Store)
-			if !ok || core.Render(st.Addr) != "request.RetryTime" {
-				return false
-			}
-			b, ok := st.Val.(*ssa.BinOp)
-			if !ok || b.Op != token.ADD || core.Render(b.X) != "request.RetryTime" {
-				return false
-			}
-			k, ok := b.Y.(*ssa.Const)
-			return ok && k.Value != nil && k.Value.ExactString() != "0" && !strings.HasPrefix(k.Value.ExactString(), "-")
-		}
-		bad := core.ReachAvoiding(ci, bc, isInc, func(x ssa.Instruction) bool { return x == bc })
-		c.Check("retry-increment", "clusterInvoke:loop", bc.Pos(), bad == nil, "a path leads from one bal.Balance call to the next without incrementing request.RetryTime: the retry budget is not consumed")
-		// the loop itself is counted
-		rts := core.Calls(ci, "invoke:bfe_http.RoundTripper.RoundTrip")
-		c.Check("retry-increment", "clusterInvoke:roundtrip-sites", ci.Pos(), len(rts) == 1, fmt.Sprintf("expected one RoundTrip call site, found %d", len(rts)))
-		if len(rts) == 1 {
-			// false edge of the flag leaves the loop: from `if !allowRetry` true-branch no path back to RoundTrip
-			for _, in := range allInstrs(ci) {
-				ifi, ok := in.(*ssa.If)
-				if !ok || ifi.Cond != flag {
-					continue
-				}
-				noRetry := ifi.Block().Succs[1]
-				back := core.ReachAvoiding(ci, noRetry.Instrs[0], nil, func(x ssa.Instruction) bool { return x == rts[0].(ssa.Instruction) })
-				c.Check("retry-flag", "clusterInvoke:false-leaves-loop", ifi.Pos(), back == nil && noRetry.Instrs[0] != rts[0].(ssa.Instruction), "when retry is not allowed the loop is not left: RoundTrip is reachable again")
-			}
-		}
+	isRetryTimeOfReq := func(v ssa.Value) bool {
+		base := rFieldLoad(v, retryTime)
+		return base != nil && rg.isRootParam(base, reqPar)
 	}
+	posConst := func(v ssa.Value) bool {
+		k, ok := v.(*ssa.Const)
+		return ok && k.Value != nil && k.Value.Kind() == constant.Int && constant.Sign(k.Value) > 0
+	}
+	isInc := func(x ssa.Instruction) bool {
+		st, ok := x.(*ssa.Store)
+		if !ok {
+			return false
+		}
+		base := rFieldAddr(st.Addr, retryTime)
+		if base == nil || !rg.in[st.Parent()] || !rg.isRootParam(base, reqPar) {
+			return false
+		}
+		b, ok := st.Val.(*ssa.BinOp)
+		if !ok || b.Op != token.ADD {
+			return false
+		}
+		return (isRetryTimeOfReq(b.X) && posConst(b.Y)) || (isRetryTimeOfReq(b.Y) && posConst(b.X))
+	}
+	mustInc := core.LiftMust(isInc, 2)
+	nLoop := 0
+	rg.instrs(func(in ssa.Instruction) {
+		if !isSelect(in) {
+			return
+		}
+		f := in.Parent()
+		if core.ReachAvoiding(f, in, nil, func(x ssa.Instruction) bool { return x == in }) == nil {
+			return // not in a loop of this function
+		}
+		nLoop++
+		bad := core.ReachAvoiding(f, in, mustInc, func(x ssa.Instruction) bool { return x == in })
+		c.Check("retry-increment", "clusterInvoke:loop", in.Pos(), bad == nil, "a path leads from one bal.Balance call to the next without incrementing request.RetryTime: the retry budget is not consumed")
+	})
+	if nLoop == 0 {
+		c.Check("retry-increment", "clusterInvoke:balance-call", ci.Pos(), false, "no bal.Balance call inside a loop of clusterInvoke (or of a private helper): the retry loop the rule was reviewed with is gone")
+	}
+	nRT := 0
+	rg.instrs(func(in ssa.Instruction) {
+		if cc, ok := in.(ssa.CallInstruction); ok && core.CallIs(cc.Common(), "invoke:bfe_http.RoundTripper.RoundTrip") {
+			nRT++
+		}
+	})
+	c.Check("retry-increment", "clusterInvoke:roundtrip-sites", ci.Pos(), nRT >= 1, fmt.Sprintf("expected a RoundTrip call site in clusterInvoke, found %d", nRT))
 	// RetryTime writers
-	if fld, ok := c.P.Obj("bfe_basic", "Request.RetryTime").(*types.Var); !ok {
-		c.Missing("bfe_basic.Request.RetryTime")
-	} else {
-		for _, st := range core.FieldStores(c.P.SrcFuncs(""), fld) {
-			k := core.FuncKey(st.Fn)
-			val := core.Render(st.Store.Val)
-			ok := false
-			switch k {
-			case srv + ".ReverseProxy.clusterInvoke":
-				ok = val == "(request.RetryTime + 1)"
-			case gslb + ".BalanceGslb.Balance":
-				ok = val == "bal.retryMax" && core.HasGuard(st.Store.Block(), func(g core.Guard) bool {
-					return (g.Pol && g.Str == "(req.RetryTime <= bal.retryMax)") || (!g.Pol && g.Str == "!(req.RetryTime > bal.retryMax)")
-				})
-			}
-			c.Check("retrytime-writers", k+":="+val, st.Store.Pos(), ok, "Request.RetryTime is written with "+val+" in "+k+"; only `+= 1` in clusterInvoke and `= bal.retryMax` under RetryTime <= retryMax (non-decreasing) are reviewed")
-		}
-		c.Min("retrytime-writers", 3)
+	balFn := c.P.Func(gslb, "BalanceGslb.Balance")
+	var balRg *rRegion
+	if balFn != nil {
+		balRg = rNewRegion(c.P, balFn)
 	}
+	retryMax, _ := c.P.Obj(gslb, "BalanceGslb.retryMax").(*types.Var)
+	crossRetry, _ := c.P.Obj(gslb, "BalanceGslb.crossRetry").(*types.Var)
+	isRetryTime := func(v ssa.Value) bool { return rFieldLoad(v, retryTime) != nil }
+	isRetryMax := func(v ssa.Value) bool { return retryMax != nil && rFieldLoad(v, retryMax) != nil }
+	isCrossRetry := func(v ssa.Value) bool { return crossRetry != nil && rFieldLoad(v, crossRetry) != nil }
+	isBudget := func(v ssa.Value) bool {
+		b, ok := core.StripConv(v).(*ssa.BinOp)
+		if !ok || b.Op != token.ADD {
+			return false
+		}
+		return (isRetryMax(b.X) && isCrossRetry(b.Y)) || (isRetryMax(b.Y) && isCrossRetry(b.X))
+	}
+	for _, st := range core.FieldStores(c.P.SrcFuncs(""), retryTime) {
+		k := core.FuncKey(st.Fn)
+		val := core.Render(st.Store.Val)
+		ok := false
+		form := "=" + val
+		switch {
+		case rg.in[st.Fn]:
+			ok = isInc(st.Store)
+			if ok {
+				form = "+=const"
+			}
+		case balRg != nil && balRg.in[st.Fn]:
+			if isRetryMax(st.Store.Val) {
+				form = "=retryMax"
+				ok = rHolds(c.P, st.Store.Block(), rCmp(token.LEQ, isRetryTime, isRetryMax))
+			}
+		}
+		c.Check("retrytime-writers", k+":"+form, st.Store.Pos(), ok, "Request.RetryTime is written with "+val+" in "+k+"; only `+= 1` in clusterInvoke and `= bal.retryMax` under RetryTime <= retryMax (non-decreasing) are reviewed")
+	}
+	c.Min("retrytime-writers", 3)
 	// (b) predicates
 	if fn := c.P.Func(srv, "checkAllowRetry"); fn == nil {
 		c.Missing(srv + ".checkAllowRetry")
 	} else {
 		c.Analysed(core.FuncKey(fn))
-		for i, r := range core.Returns(fn) {
-			if core.Render(r.Results[0]) == "false" {
-				continue
-			}
-			gs := core.GuardStrs(r.Block())
-			has := func(s string) bool {
-				for _, g := range gs {
-					if g == s {
-						return true
-					}
-				}
-				return false
-			}
-			ok := core.Render(r.Results[0]) == "true" && has("(retryLevel == 1)") && has("(outreq.Method == \"GET\")") && has("bfe_server.checkRequestWithoutBody(outreq)")
-			c.Check("allow-retry-guard", fmt.Sprintf("checkAllowRetry:return#%d", i), r.Pos(), ok,
-				"checkAllowRetry returns "+core.Render(r.Results[0])+" under {"+strings.Join(gs, " && ")+"}; required: retryLevel == RetryGet && Method == GET && checkRequestWithoutBody")
-		}
-		c.Min("allow-retry-guard", 1)
+		retryGet := "1"
 		if k, ok := c.P.Obj("bfe_config/bfe_cluster_conf/cluster_conf", "RetryGet").(*types.Const); !ok || k.Val().ExactString() != "1" {
 			c.Check("allow-retry-guard", "RetryGet", token.NoPos, false, "cluster_conf.RetryGet is not the constant 1 the rule was reviewed with")
 		}
+		method, _ := c.P.Obj("bfe_http", "Request.Method").(*types.Var)
+		isParam := func(v ssa.Value) bool { p := rParamOf(core.StripConv(v)); return p != nil && p.Parent() == fn }
+		mLevel := rCmp(token.EQL, func(v ssa.Value) bool {
+			p := rParamOf(core.StripConv(v))
+			return p != nil && p.Parent() == fn && types.Identical(p.Type().Underlying(), types.Typ[types.Int])
+		}, rIsIntConst(retryGet))
+		mGet := rCmp(token.EQL, func(v ssa.Value) bool {
+			base := rFieldLoad(v, method)
+			return base != nil && isParam(base)
+		}, func(v ssa.Value) bool { s, ok := core.ConstString(v); return ok && s == "GET" })
+		mNoBody := func(g core.Guard) bool {
+			call, ok := g.Cond.(*ssa.Call)
+			return ok && g.Pol && core.CallIs(&call.Call, srv+".checkRequestWithoutBody") && len(call.Call.Args) == 1 && isParam(call.Call.Args[0])
+		}
+		for i, r := range core.Returns(fn) {
+			v := core.RetVals(r)[0]
+			if k, isK := rBoolConst(v); isK && !k {
+				continue
+			}
+			ok := true
+			var why []string
+			n := 0
+			for _, base := range rBlockAlts(c.P, r.Block()) {
+				for _, a := range rTrueAlts(v, base, true, 4) {
+					n++
+					if !(a.has(mLevel) && a.has(mGet) && a.has(mNoBody)) {
+						ok = false
+						var gs []string
+						for _, g := range a {
+							gs = append(gs, g.Str)
+						}
+						why = append(why, "{"+strings.Join(gs, " && ")+"}")
+					}
+				}
+			}
+			if n == 0 {
+				continue // cannot be true
+			}
+			c.Check("allow-retry-guard", fmt.Sprintf("checkAllowRetry:return#%d", i), r.Pos(), ok,
+				"checkAllowRetry returns true under "+strings.Join(why, " or ")+"; required: retryLevel == RetryGet && Method == GET && checkRequestWithoutBody")
+		}
+		c.Min("allow-retry-guard", 1)
 	}
 	if fn := c.P.Func(srv, "checkRequestWithoutBody"); fn == nil {
 		c.Missing(srv + ".checkRequestWithoutBody")
 	} else {
 		c.Analysed(core.FuncKey(fn))
+		body, _ := c.P.Obj("bfe_http", "Request.Body").(*types.Var)
+		isBody := func(v ssa.Value) bool {
+			base := rFieldLoad(v, body)
+			p := rParamOf(base)
+			return base != nil && p != nil && p.Parent() == fn
+		}
+		isEofReader := func(v ssa.Value) bool {
+			u, ok := core.StripConv(v).(*ssa.UnOp)
+			if !ok || u.Op != token.MUL {
+				return false
+			}
+			g, ok := u.X.(*ssa.Global)
+			return ok && g.Name() == "EofReader" && g.Pkg != nil && strings.HasSuffix(g.Pkg.Pkg.Path(), "/bfe_http")
+		}
+		mNil := rCmp(token.EQL, isBody, isNilConst)
+		mEof := rCmp(token.EQL, isBody, isEofReader)
+		mSpdy := func(g core.Guard) bool {
+			call, ok := g.Cond.(*ssa.Call)
+			return ok && g.Pol && core.CallIs(&call.Call, "bfe_spdy.RequestBody.Eof")
+		}
 		for i, r := range core.Returns(fn) {
-			v := core.Render(r.Results[0])
-			if v == "false" {
+			v := core.RetVals(r)[0]
+			if k, isK := rBoolConst(v); isK && !k {
 				continue
 			}
-			gs := core.GuardStrs(r.Block())
-			ok := false
-			switch {
-			case v == "true":
-				ok = core.AllEdgesGuarded(r.Block(), func(g core.Guard) bool {
-					return g.Pol && (g.Str == "(req.Body == nil)" || g.Str == "(req.Body == bfe_http.EofReader)")
-				})
-			case strings.HasPrefix(v, "bfe_spdy.RequestBody.Eof("):
-				ok = true
+			ok := true
+			var why []string
+			n := 0
+			for _, base := range rBlockAlts(c.P, r.Block()) {
+				for _, a := range rTrueAlts(v, base, true, 4) {
+					n++
+					if !(a.has(mNil) || a.has(mEof) || a.has(mSpdy)) {
+						ok = false
+						var gs []string
+						for _, g := range a {
+							gs = append(gs, g.Str)
+						}
+						why = append(why, "{"+strings.Join(gs, " && ")+"}")
+					}
+				}
+			}
+			if n == 0 {
+				continue
 			}
 			c.Check("no-body-guard", fmt.Sprintf("checkRequestWithoutBody:return#%d", i), r.Pos(), ok,
-				"checkRequestWithoutBody reports `no body` as "+v+" under {"+strings.Join(gs, " && ")+"}; accepted: true under Body == nil / Body == EofReader, or RequestBody.Eof()")
+				"checkRequestWithoutBody reports `no body` under "+strings.Join(why, " or ")+"; accepted: true under Body == nil / Body == EofReader, or RequestBody.Eof()")
 		}
 		c.Min("no-body-guard", 2)
 	}
 	// (d') the cross-retry selector itself never hands back the excluded sub-cluster
-	checkExcludePredicate(c, "cross-exclude-predicate")
+	checkExcludePredicateR(c, "cross-exclude-predicate")
 	// (a') who may classify a failure as a connect error: ConnectError is constructed only on the
 	// error branch of the call that acquires the backend connection, before any request byte is
 	// written; everything clusterInvoke treats as "always safe to retry" rests on that.
 	nCE := 0
+	isDialErr := func(v ssa.Value) bool {
+		ex, isEx := core.StripConv(v).(*ssa.Extract)
+		if !isEx {
+			return false
+		}
+		call, isCall := ex.Tuple.(*ssa.Call)
+		if !isCall {
+			return false
+		}
+		k := core.CalleeKey(&call.Call)
+		return k == "bfe_http.Transport.getConn" || k == "bfe_fcgi.Dial" || k == "bfe_fcgi.DialTimeout"
+	}
 	for _, fn := range c.P.SrcFuncs("bfe_http", "bfe_fcgi") {
 		core.Instrs(fn, func(in ssa.Instruction) {
 			mi, ok := in.(*ssa.MakeInterface)
@@ -297,22 +687,7 @@ func runC08(c *core.Ctx) {
 				return
 			}
 			nCE++
-			ok2 := core.HasGuard(in.Block(), func(g core.Guard) bool {
-				v, nonNil, isNil := nilTestOf(g)
-				if !isNil || !nonNil {
-					return false
-				}
-				ex, isEx := v.(*ssa.Extract)
-				if !isEx {
-					return false
-				}
-				call, isCall := ex.Tuple.(*ssa.Call)
-				if !isCall {
-					return false
-				}
-				k := core.CalleeKey(&call.Call)
-				return k == "bfe_http.Transport.getConn" || k == "bfe_fcgi.Dial" || k == "bfe_fcgi.DialTimeout"
-			})
+			ok2 := rHolds(c.P, in.Block(), rNonNil(isDialErr))
 			c.Check("connect-error-origin", core.FuncKey(fn)+":"+ts, in.Pos(), ok2, "a "+ts+" (which clusterInvoke always retries) is produced outside the error branch of the connection-acquiring call: a failure after request bytes were written could be replayed")
 		})
 	}
@@ -320,21 +695,17 @@ func runC08(c *core.Ctx) {
 		c.Check("connect-error-origin", "sites", token.NoPos, false, fmt.Sprintf("expected the two ConnectError construction sites (http, fcgi transports), found %d", nCE))
 	}
 	// (c,d) BalanceGslb.Balance gates
-	if fn := c.P.Func(gslb, "BalanceGslb.Balance"); fn == nil {
+	if balFn == nil {
 		c.Missing(gslb + ".BalanceGslb.Balance")
 	} else {
+		fn := balFn
 		c.Analysed(core.FuncKey(fn))
-		hasG := func(b *ssa.BasicBlock, want string) bool {
-			for _, g := range core.GuardStrs(b) {
-				if g == want {
-					return true
-				}
-			}
-			return false
-		}
-		for i, call := range append(core.Calls(fn, gslb+".BalanceGslb.subClusterBalance"), append(core.Calls(fn, gslb+".SubCluster.balance"), core.Calls(fn, gslb+".BalanceGslb.randomSelectExclude")...)...) {
+		within := rCmp(token.LEQ, isRetryTime, isBudget)
+		exceeded := rCmp(token.GTR, isRetryTime, isBudget)
+		sel := balRg.calls(gslb+".BalanceGslb.subClusterBalance", gslb+".SubCluster.balance", gslb+".BalanceGslb.randomSelectExclude")
+		for i, call := range sel {
 			b := call.(ssa.Instruction).Block()
-			c.Check("retry-bound", fmt.Sprintf("BalanceGslb.Balance:select#%d", i), call.Pos(), hasG(b, "!(req.RetryTime > (bal.retryMax + bal.crossRetry))"),
+			c.Check("retry-bound", fmt.Sprintf("BalanceGslb.Balance:select#%d", i), call.Pos(), rHolds(c.P, b, within),
 				"a selection step is reachable although req.RetryTime > retryMax + crossRetry was not excluded first")
 		}
 		c.Min("retry-bound", 4)
@@ -342,7 +713,7 @@ func runC08(c *core.Ctx) {
 		found := false
 		for _, r := range core.Returns(fn) {
 			rv := core.RetVals(r)
-			if hasG(r.Block(), "(req.RetryTime > (bal.retryMax + bal.crossRetry))") {
+			if rHolds(c.P, r.Block(), exceeded) {
 				found = true
 				c.Check("retry-bound", "BalanceGslb.Balance:exceeded-return", r.Pos(), isNilConst(rv[0]) && core.Render(rv[1]) == "bfe_basic.ErrBkRetryTooMany", "the retry-exceeded branch must return (nil, ErrBkRetryTooMany); returns "+core.Render(rv[0])+", "+core.Render(rv[1]))
 			}
@@ -350,29 +721,65 @@ func runC08(c *core.Ctx) {
 		if !found {
 			c.Check("retry-bound", "BalanceGslb.Balance:exceeded-return", fn.Pos(), false, "no return guarded by req.RetryTime > retryMax + crossRetry")
 		}
-		sb := core.Calls(fn, gslb+".SubCluster.balance")
-		rse := core.Calls(fn, gslb+".BalanceGslb.randomSelectExclude")
-		if len(sb) == 2 && len(rse) == 1 {
-			first := sb[0].(ssa.Instruction)
-			c.Check("in-cluster-gate", "BalanceGslb.Balance", first.Pos(), hasG(first.Block(), "(req.RetryTime <= bal.retryMax)"), "in-cluster selection must be limited to req.RetryTime <= retryMax")
-			ex := rse[0].(ssa.Instruction)
-			arg := rse[0].Common().Args[1]
-			okArg := false
-			if e, ok := core.StripConv(arg).(*ssa.Extract); ok && e.Index == 0 {
-				if call, ok := e.Tuple.(*ssa.Call); ok && core.CallIs(&call.Call, gslb+".BalanceGslb.subClusterBalance") {
-					okArg = true
+		// in-cluster selections run on the request's assigned sub-cluster under RetryTime <= retryMax;
+		// cross selections run on the result of randomSelectExclude(assigned sub-cluster) under crossRetry > 0
+		resultOf := func(v ssa.Value, callee string) *ssa.Call {
+			if e, ok := core.StripConv(v).(*ssa.Extract); ok && e.Index == 0 {
+				if call, ok := e.Tuple.(*ssa.Call); ok && core.CallIs(&call.Call, callee) {
+					return call
 				}
 			}
-			c.Check("cross-exclude", "BalanceGslb.Balance:exclude-arg", ex.Pos(), okArg, "cross-cluster retry must exclude the request's first-choice sub-cluster (result of subClusterBalance); excludes "+core.Render(arg))
-			c.Check("cross-exclude", "BalanceGslb.Balance:cross-enabled", ex.Pos(), hasG(ex.Block(), "!(bal.crossRetry <= 0)"), "cross-cluster selection reachable with crossRetry <= 0")
-			second := sb[1]
-			okT := false
-			if e, ok := core.StripConv(second.Common().Args[0]).(*ssa.Extract); ok && e.Index == 0 && e.Tuple == rse[0].(*ssa.Call) {
-				okT = true
+			return nil
+		}
+		sb := balRg.calls(gslb + ".SubCluster.balance")
+		rse := balRg.calls(gslb + ".BalanceGslb.randomSelectExclude")
+		nIn, nCross := 0, 0
+		for _, call := range sb {
+			in := call.(ssa.Instruction)
+			var recvs []ssa.Value
+			recvs = balRg.origins(call.Common().Args[0])
+			inCluster, cross := len(recvs) > 0, len(recvs) > 0
+			for _, rv := range recvs {
+				if resultOf(rv, gslb+".BalanceGslb.subClusterBalance") == nil {
+					inCluster = false
+				}
+				if resultOf(rv, gslb+".BalanceGslb.randomSelectExclude") == nil {
+					cross = false
+				}
 			}
-			c.Check("cross-exclude", "BalanceGslb.Balance:cross-target", second.Pos(), okT, "the cross-retry selection must run on the sub-cluster returned by randomSelectExclude; runs on "+core.Render(second.Common().Args[0]))
-		} else {
-			c.Check("cross-exclude", "BalanceGslb.Balance:shape", fn.Pos(), false, fmt.Sprintf("expected 2 SubCluster.balance calls and 1 randomSelectExclude call, found %d and %d", len(sb), len(rse)))
+			switch {
+			case inCluster:
+				nIn++
+				c.Check("in-cluster-gate", "BalanceGslb.Balance", in.Pos(), rHolds(c.P, in.Block(), rCmp(token.LEQ, isRetryTime, isRetryMax)), "in-cluster selection must be limited to req.RetryTime <= retryMax")
+			case cross:
+				nCross++
+				c.Check("cross-exclude", "BalanceGslb.Balance:cross-target", in.Pos(), true, "")
+			default:
+				nCross++
+				c.Check("cross-exclude", "BalanceGslb.Balance:cross-target", in.Pos(), false, "a backend selection must run on the request's assigned sub-cluster or, for a cross retry, on the sub-cluster returned by randomSelectExclude; runs on "+core.Render(call.Common().Args[0]))
+			}
+		}
+		for _, call := range rse {
+			ex := call.(ssa.Instruction)
+			okArg := len(call.Common().Args) == 2
+			if okArg {
+				os := balRg.origins(call.Common().Args[1])
+				okArg = len(os) > 0
+				for _, o := range os {
+					if resultOf(o, gslb+".BalanceGslb.subClusterBalance") == nil {
+						okArg = false
+					}
+				}
+			}
+			arg := "?"
+			if len(call.Common().Args) == 2 {
+				arg = core.Render(call.Common().Args[1])
+			}
+			c.Check("cross-exclude", "BalanceGslb.Balance:exclude-arg", ex.Pos(), okArg, "cross-cluster retry must exclude the request's first-choice sub-cluster (result of subClusterBalance); excludes "+arg)
+			c.Check("cross-exclude", "BalanceGslb.Balance:cross-enabled", ex.Pos(), rHolds(c.P, ex.Block(), rCmp(token.GTR, isCrossRetry, rIsIntConst("0"))), "cross-cluster selection reachable with crossRetry <= 0")
+		}
+		if nIn == 0 || nCross == 0 || len(rse) == 0 {
+			c.Check("cross-exclude", "BalanceGslb.Balance:shape", fn.Pos(), false, fmt.Sprintf("expected an in-cluster SubCluster.balance call, a cross-cluster one and a randomSelectExclude call, found %d, %d and %d", nIn, nCross, len(rse)))
 		}
 	}
 }
